@@ -178,6 +178,36 @@ static str apply(String & s, const std::vector<str> & a, bool allowAlias, String
    if (c == "eqhi"){return s.EqualsIgnoreCase(CH(1)) ? "b1" : "b0";}
    if (c == "swhi"){return s.StartsWithIgnoreCase(CH(1)) ? "b1" : "b0";}
    if (c == "ewhi"){return s.EndsWithIgnoreCase(CH(1)) ? "b1" : "b0";}
+   if (c == "ufw")
+   {
+      // String::Unflatten() on a DataUnflattener that is a window of a[2] bytes onto the array a[1] (exactly allocated, so anything
+      // beyond the array is poisoned for ASan) and has already been read from: a[3] = '.'-separated earlier reads
+      // (b<n> ReadBytes, i ReadInt32, c ReadCString, s String::Unflatten of another String)
+      const str arena = unhex(a[1]);
+      uint8 * p = (uint8 *) malloc(arena.size() ? arena.size() : 1); memcpy(p, arena.data(), arena.size());
+      const uint32 win = muscleMin(U(a[2]), (uint32) arena.size());
+      long long enc;
+      {
+         DataUnflattener unflat(p, win);
+         const std::vector<str> pre = split(a[3], '.');
+         for (size_t i=0; i<pre.size(); i++)
+         {
+            const str & t = pre[i];
+            if (t.empty()) continue;
+            if (t[0] == 'b') {std::vector<uint8> tmp(U(t.substr(1))+1); (void) unflat.ReadBytes(&tmp[0], U(t.substr(1)));}
+            else if (t == "i") (void) unflat.ReadInt32();
+            else if (t == "c") (void) unflat.ReadCString();
+            else if (t == "s") {String other; (void) other.Unflatten(unflat);}
+         }
+         const status_t r = s.Unflatten(unflat);
+         const uint32 consumed = unflat.GetNumBytesRead();
+         if ((r.IsOK())&&(unflat.GetStatus().IsError())&&(false)) complaint = "unflattener status";
+         if ((r.IsError())&&(unflat.GetStatus().IsOK())) complaint = "Unflatten() failed but the DataUnflattener reports no error";
+         enc = r.IsOK() ? (long long) consumed : (-(long long) consumed)-1;
+      }
+      free(p);
+      return "i"+num(enc);
+   }
    if (c == "at")  {const uint32 i = U(a[1]); if (i < s.Length()) {if (s.CharAt(i) != s[i]) complaint = "CharAt != operator[]"; return "u"+num((unsigned char)s[i]);} return "u0";}
    if (c == "ioh") {const int r = s.IndexOf(CH(1), U(a[2])); if (s.Contains(CH(1), U(a[2])) != (r >= 0)) complaint = "Contains(char) disagrees with IndexOf"; return "i"+num(r);}
    if (c == "ios") {SA(1); const int r = s.IndexOf(S1, U(a[2])); if (s.Contains(S1, U(a[2])) != (r >= 0)) complaint = "Contains(String) disagrees with IndexOf"; return "i"+num(r);}
@@ -443,6 +473,27 @@ static str ref_apply(str & s, const std::vector<str> & a, bool & hasProd, str & 
    if (c == "eqhi"){return ((s.size() == 1)&&(lc(s[0]) == lc(RH(1)))) ? "b1" : "b0";}
    if (c == "swhi"){return ((!s.empty())&&(lc(s[0]) == lc(RH(1)))) ? "b1" : "b0";}
    if (c == "ewhi"){return ((!s.empty())&&(lc(s[s.size()-1]) == lc(RH(1)))) ? "b1" : "b0";}
+   if (c == "ufw")
+   {
+      // only the window's remaining bytes decide: the value is the prefix of the remaining window before its first NUL,
+      // no NUL there (or nothing left) = rejected, nothing consumed; never more than the window is consumed
+      const str arena = unhex(a[1]);
+      const size_t win = std::min((size_t) U(a[2]), arena.size());
+      const str w = arena.substr(0, win);
+      size_t r = 0;
+      const std::vector<str> pre = split(a[3], '.');
+      for (size_t i=0; i<pre.size(); i++)
+      {
+         const str & t = pre[i];
+         if (t.empty()) continue;
+         if ((t[0] == 'b')||(t == "i")) {const size_t n = (t == "i") ? 4 : U(t.substr(1)); if (n <= win-r) r += n;}
+         else {const size_t z = w.find('\0', r); if (z != str::npos) r = z+1;}
+      }
+      const size_t z = w.find('\0', r);
+      if (z == str::npos) return "i"+num((-(long long) r)-1);   // rejected: the value afterwards is unspecified
+      s = w.substr(r, z-r);
+      return "i"+num((long long) z+1);
+   }
    if (c == "at")  {const uint32 i = U(a[1]); return "u"+num((i < s.size()) ? (unsigned char)s[i] : 0);}
    if (c == "ioh") {const uint32 f = U(a[2]); if (f >= s.size()) return "i-1"; if (RH(1) == 0) return "i"+num(s.size()); const size_t p = s.find(RH(1), f); return "i"+num((p == str::npos) ? -1 : (long long)p);}
    if ((c == "ios")||(c == "ioc")) {const str n = (c == "ios") ? RS(1) : RC(1); const uint32 f = U(a[2]); if (f >= s.size()) return "i-1"; const size_t p = s.find(n, f); return "i"+num((p == str::npos) ? -1 : (long long)p);}
@@ -612,6 +663,8 @@ static str shape_complaint(const String & s)
    return str();
 }
 
+static bool rejected(const std::vector<str> & a, const str & refOut) {return ((a[0] == "uf")&&(refOut == "err"))||((a[0] == "ufw")&&(refOut.size() > 1)&&(refOut[1] == '-'));}
+
 static void run_case(int k, const str & body, bool nulStream)
 {
    std::ostringstream o, orc;
@@ -663,9 +716,9 @@ static void run_case(int k, const str & body, bool nulStream)
          {
             if ((refOut != "?")&&(refOut != out)) {if (!((refOut == "err")&&(a[0] == "uf")&&(false))) why = "ideal: result "+out+" but the ideal byte string gives "+refOut;}
             else if ((refHasProd)&&(prod)&&(!assign)&&(content_of(*prod) != refProd)) why = "ideal: produced String differs from the ideal byte string";
-            if ((why.empty())&&(!((a[0] == "uf")&&(refOut == "err")))&&(content_of(*s) != ideal)) why = "ideal: contents differ from the ideal byte string";
+            if ((why.empty())&&(!rejected(a, refOut))&&(content_of(*s) != ideal)) why = "ideal: contents differ from the ideal byte string";
          }
-         if ((a[0] == "uf")&&(refOut == "err")) ideal = content_of(*s);   // the value after a rejected parse is unspecified: follow the implementation
+         if (rejected(a, refOut)) ideal = content_of(*s);   // the value after a rejected parse is unspecified: follow the implementation
          delete prod; delete twinProd; delete twin;
          if (!why.empty()) {orc << k << " ORACLE FAIL " << why << " at op#" << n << " " << a[0] << "\n"; break;}
       }
